@@ -45,20 +45,22 @@ A == INSTANCE HeaderHashes
 Init == l = 1 /\ cfg = [page |-> 1, trusted |-> 0, rub |-> FALSE, mtb |-> 0] /\ hh = 0 /\ bh = 0 /\ ahh = 0 /\ abh = 0
 
 Segs(o) == ToSet(o.segs)
-FloorOf(o) == A!Floor(cfg.trusted, cfg.rub, cfg.mtb, o.bh)
+FloorC(c, o) == A!Floor(c.trusted, c.rub, c.mtb, o.bh)
 
-\* abstract predicates every observation of a live node must satisfy
-ObsChecks(o) ==
+\* abstract predicates every observation of a live node must satisfy (c = configuration of the world)
+ObsChecksC(c, o) ==
     NameIf(A!ForeignFree(Segs(o)), "ForeignFree")
-    \cup NameIf(A!Retained(o.hh, FloorOf(o), Segs(o)), "Retained")
+    \cup NameIf(A!Retained(o.hh, FloorC(c, o), Segs(o)), "Retained")
     \cup NameIf(A!NothingBeyondTip(o.hh, Segs(o)), "NothingBeyondTip")
-    \cup NameIf(o.hh >= FloorOf(o) => o.tip = "c", "TipOK")
+    \cup NameIf(o.hh >= FloorC(c, o) => o.tip = "c", "TipOK")
+ObsChecks(o) == ObsChecksC(cfg, o)
 
 \* model-level expectations on an observation
-ObsDrift(o) ==
-    LET st == ((o.hh + 1) \div cfg.page) * cfg.page IN
+ObsDriftC(c, o) ==
+    LET st == ((o.hh + 1) \div c.page) * c.page IN
     NameIf(o.mem.stored = st /\ o.mem.latest = o.hh + 1 - st, "drift:MemShape")
-    \cup NameIf(\A p \in ToSet(o.pages) : p % cfg.page = 0 /\ p + cfg.page <= o.dhh + 1, "drift:DiskPages")
+    \cup NameIf(\A p \in ToSet(o.pages) : p % c.page = 0 /\ p + c.page <= o.dhh + 1, "drift:DiskPages")
+ObsDrift(o) == ObsDriftC(cfg, o)
 
 Max2(a, b) == IF a > b THEN a ELSE b
 
@@ -104,10 +106,10 @@ Step ==
               /\ cfg' = [page |-> e.page, trusted |-> e.trusted, rub |-> e.rub, mtb |-> e.mtb]
               /\ hh' = e.obs.hh /\ bh' = e.obs.bh /\ ahh' = e.obs.hh /\ abh' = e.obs.bh
               /\ LET c == [page |-> e.page, trusted |-> e.trusted, rub |-> e.rub, mtb |-> e.mtb] IN
-                 Report(l, (IF e.ok THEN {} ELSE {"Restarted"}), [ev |-> "init", world |-> e.world])
+                 Report(l, ObsChecksC(c, e.obs) \cup ObsDriftC(c, e.obs), [op |-> "init", world |-> e.world, step |-> 0])
          [] e.event = "step" ->
               /\ UNCHANGED cfg
-              /\ IF e.ok /\ e.op # "reset-failed"
+              /\ IF e.ok
                  THEN /\ hh' = e.obs.hh /\ bh' = e.obs.bh
                       /\ ahh' = IF e.op \in {"stop", "reopen", "crash", "reset"} THEN e.obs.hh ELSE Max2(ahh, e.obs.hh)
                       /\ abh' = IF e.op \in {"stop", "reopen", "crash", "reset"} THEN e.obs.bh ELSE Max2(abh, e.obs.bh)
